@@ -15,6 +15,8 @@
            to a constructor of [mut] and applied with lib_apply;
              dig -> D=<fields>#<pos>.<hash type>.<preimage|ERR>,...   (ob_signature on the current object, every
                     position, hash type 1 for legacy inputs and 1,2,3,0x81,0x82,0x83 for segwit inputs)
+             inf -> I=<fields>#<pos>.<leg|sw|p2sh>.<preimage|ERR>,...   (witness type of every input = k_wtype of its
+                    kind, ob_signature with it and hash type 1)
              raw -> R=<fields>#<version>#<version_int>      vfy -> V      anything else -> ok
            <fields> = <version>/<locktime>/<prev,vout,seq;...>/<value,script;...> : what raw() must serialise *)
 module BZ = Z
@@ -80,7 +82,7 @@ let nat s = nat_of_int (int_of_string s)
 
 let mut_of (op : string) : mut =
   match String.split_on_char '~' op with
-  | ["dig"] -> M_digest
+  | ["dig"] | ["inf"] -> M_digest
   | ["raw"] -> M_raw
   | ["vfy"] -> M_verify
   | ["sign"] | ["rsign"] | ["signk"] | ["rsignk"] | ["signkh"] | ["signkb"] | ["signkw"] | ["signkd"] -> M_sign
@@ -121,6 +123,16 @@ let digests_str (o : tobj) : string =
       string_of_int p ^ "." ^ str_z ht ^ "." ^ pre_ans (ob_signature sha256d hash160 o (BZ.of_int p) ht wt)) hts) o.ob_ins) in
   if ents = [] then "-" else String.concat "," ents
 
+(* inf: per input the witness type the object must hold for it (k_wtype of the kind of the spent output) and the
+   preimage of ob_signature for that type, hash type ALL: what sign() signs *)
+let wt_name = function WT_legacy -> "leg" | WT_segwit -> "sw" | WT_p2sh_segwit -> "p2sh"
+
+let inferred_str (o : tobj) : string =
+  let ents = List.mapi (fun p x ->
+    let wt = k_wtype x.si_kind in
+    string_of_int p ^ "." ^ wt_name wt ^ "." ^ pre_ans (ob_signature sha256d hash160 o (BZ.of_int p) BZ.one wt)) o.ob_ins in
+  if ents = [] then "-" else String.concat "," ents
+
 let session mode tok ops =
   let t = tx_of_tok tok in
   let v0 = if BZ.equal t.st_version BZ.zero then BZ.one else t.st_version in
@@ -131,9 +143,12 @@ let session mode tok ops =
          hash / locking script / address / unsigned unlocking script / redeem script);
          the keys arrive with sign(keys).  What the object serialises and which digests it has once keyed is that of the
          api path: the construction form is invisible to the model *)
-      | "api" | "apik" | "apib" | "fn" | "fh" | "fl" | "fa" | "fla" | "fu" -> ob_build_api t.st_version t.st_locktime t.st_segwit false t.st_ins t.st_outs
+      (* kn / kl / ka / kla / il / ia (+ klc / kac / ilc / knc through the constructor): the witness type of the inputs is
+         not passed, the library infers it; the model knows it from the kind (k_wtype) *)
+      | "api" | "apik" | "apib" | "fn" | "fh" | "fl" | "fa" | "fla" | "fu"
+      | "kn" | "kl" | "ka" | "kla" | "il" | "ia" -> ob_build_api t.st_version t.st_locktime t.st_segwit false t.st_ins t.st_outs
       | "apikr" -> ob_build_api t.st_version t.st_locktime t.st_segwit true t.st_ins t.st_outs
-      | "ctor" | "fr" -> lib_ctor t.st_version t.st_locktime t.st_segwit t.st_ins t.st_outs
+      | "ctor" | "fr" | "klc" | "kac" | "ilc" | "knc" -> lib_ctor t.st_version t.st_locktime t.st_segwit t.st_ins t.st_outs
       | "parse" -> ob_fresh (ob_fields (ob_build_api t.st_version t.st_locktime t.st_segwit false t.st_ins t.st_outs))
       | _ -> failwith "mode") in
     let o = ref o0 in
@@ -141,6 +156,7 @@ let session mode tok ops =
       let m = mut_of op in
       o := lib_apply !o m;
       match m with
+      | M_digest when op = "inf" -> "I=" ^ fields_str (ob_fields !o) ^ "#" ^ inferred_str !o
       | M_digest -> "D=" ^ fields_str (ob_fields !o) ^ "#" ^ digests_str !o
       | M_raw -> "R=" ^ fields_str (ob_fields !o) ^ "#" ^ str_z !o.ob_version ^ "#" ^ str_z !o.ob_version_int
       | M_verify -> "V"
